@@ -91,7 +91,7 @@ fn cfg_for(property: &str, tier: Tier) -> GenCfg {
         "C04" => GenCfg {
             starts: all_starts,
             lrus: vec![7, 64, 4096],
-            policies: vec![Policy::Spicy, Policy::Spicy, Policy::Uniform, Policy::Hunt],
+            policies: vec![Policy::Spicy, Policy::Spicy, Policy::Uniform, Policy::Hunt, Policy::Shuffle],
             min_len: 20,
             max_len: if thorough { 400 } else { 120 },
             weights: [50, 30, 0, 0, 0, 0, 0, 0, 12],
@@ -230,6 +230,25 @@ pub fn gen_plan(property: &str, seed: u64, index: u64, tier: Tier) -> Plan {
     let cfg = cfg_for(property, tier);
     let (_kind, start) = choose_start(&mut rng, &cfg.starts);
     let lru = *rng.pick(&cfg.lrus);
+    if property == "C02" && rng.below(40) == 0 {
+        // soak: one generator lives through a full-width walk of a few hundred thousand positions
+        let mut knobs = std::collections::BTreeMap::new();
+        knobs.insert("nodes".to_string(), if tier == Tier::Thorough { 1_200_000 } else { 320_000 });
+        knobs.insert("depth".to_string(), 5);
+        let start = if rng.chance(1, 2) { Pos::startpos() } else { start };
+        return Plan {
+            property: property.to_string(),
+            scenario: "soak-walk".to_string(),
+            seed,
+            index,
+            start_fen: start.to_fen(),
+            lru: *rng.pick(&[4096usize, 100_000, 1_000_000]),
+            register: false,
+            knobs,
+            ops: Vec::new(),
+            schedule: String::new(),
+        };
+    }
     let mut ops: Vec<Op> = Vec::new();
     let scenario;
     if rng.below(1000) < cfg.dfs_permille {
@@ -316,7 +335,7 @@ pub fn gen_plan(property: &str, seed: u64, index: u64, tier: Tier) -> Plan {
         index,
         start_fen: start.to_fen(),
         lru,
-        register: cfg.register,
+        register: cfg.register || (property == "C04" && index % 3 == 0),
         knobs: Default::default(),
         ops,
         schedule: String::new(),
@@ -344,7 +363,116 @@ fn fresh_generator() -> MoveGenerator {
     MoveGenerator::new()
 }
 
+/// Soak: the long-lived generator G answers move and attack queries at every node of a
+/// full-width walk (hundreds of thousands of positions, so its caches hold what a real
+/// perft or game accumulates); the reference generator is replaced every 1000 nodes, so it
+/// has seen almost nothing.
+fn exec_soak(plan: &Plan) -> Outcome {
+    let mut out = Outcome::default();
+    let mut stats = Stats::default();
+    let mut digest = Digest::new();
+    chess::verif_hooks::set_lru_capacity(plan.lru);
+    let start = match Pos::from_fen(&plan.start_fen) {
+        Some(mut p) => {
+            p.half = 0;
+            p.plies = 0;
+            p
+        }
+        None => {
+            out.desync = Some("bad-start-fen".into());
+            return out;
+        }
+    };
+    set_phase("query");
+    let budget = plan.knob("nodes", 300_000) as u64;
+    let max_depth = plan.knob("depth", 4) as usize;
+    let mut board = build_board(&start, None);
+    let mut gen = fresh_generator();
+    let mut reference = fresh_generator();
+    let mut nodes: u64 = 0;
+    let mut evals: u64 = 0;
+    // explicit stack: (position, legal moves, next index, engine move that led here)
+    let mut stack: Vec<(Pos, Vec<Mv>, usize, Option<ChessMove>)> = vec![(start.clone(), start.legal_moves(), 0, None)];
+    let mut fresh_node = true;
+    'walk: while let Some(top) = stack.last_mut() {
+        if fresh_node {
+            nodes += 1;
+            if nodes % 1000 == 0 {
+                reference = fresh_generator();
+                stats.bump("reference-generator-replaced");
+            }
+            let cur = &top.0;
+            let sides: &[Side] = if cur.ep.is_none() && !cur.in_check(cur.stm) { &[Side::White, Side::Black] } else if cur.stm == Side::White { &[Side::White] } else { &[Side::Black] };
+            for side in sides {
+                let a = gen.get_attack_targets(&board, color(*side));
+                let b = reference.get_attack_targets(&board, color(*side));
+                evals += 1;
+                if a != b {
+                    out.violation = Some(Violation {
+                        class: "C02/long-lived-generator-attacks-differ-from-fresh/after-soak".to_string(),
+                        detail: format!("{} attacks by {:?}: generator that has served {} positions {:016x}, young generator {:016x}", cur.to_fen(), side, nodes, a.0, b.0),
+                        at_op: 0,
+                    });
+                    break 'walk;
+                }
+            }
+            let a = sorted_keys(&gen.generate_moves(&mut board, color(cur.stm)));
+            let b = sorted_keys(&reference.generate_moves(&mut board, color(cur.stm)));
+            evals += 1;
+            digest.eat(a.len() as u64);
+            if a != b {
+                out.violation = Some(Violation {
+                    class: "C02/long-lived-generator-moves-differ-from-fresh/after-soak".to_string(),
+                    detail: format!("{}: generator that has served {} positions gives {} moves, young generator {}", cur.to_fen(), nodes, a.len(), b.len()),
+                    at_op: 0,
+                });
+                break 'walk;
+            }
+            if nodes >= budget {
+                break 'walk;
+            }
+        }
+        let depth_here = stack.len() - 1;
+        let top = stack.last_mut().unwrap();
+        if depth_here >= max_depth || top.2 >= top.1.len() {
+            // leave this node
+            let done = stack.pop().unwrap();
+            if let Some(em) = done.3 {
+                board.toggle_turn();
+                if em.undo(&mut board).is_err() {
+                    out.desync = Some("soak: undo failed".into());
+                    break 'walk;
+                }
+            }
+            fresh_node = false;
+            continue;
+        }
+        let m = top.1[top.2];
+        top.2 += 1;
+        let next = top.0.make(&m);
+        let em = to_engine_move(&m, top.0.stm);
+        if em.apply(&mut board).is_err() {
+            out.desync = Some("soak: apply failed".into());
+            break 'walk;
+        }
+        board.toggle_turn();
+        let legal = next.legal_moves();
+        stack.push((next, legal, 0, Some(em)));
+        fresh_node = true;
+    }
+    stats.add("soak/positions-served-by-one-generator", nodes);
+    stats.add("fault/cache-soak", 1);
+    stats.add("steps", nodes);
+    out.stats = stats;
+    out.digest = digest.0;
+    out.oracle_evals = evals;
+    out
+}
+
 pub fn exec(plan: &Plan) -> Outcome {
+    if plan.scenario == "soak-walk" {
+        return exec_soak(plan);
+    }
     let prop = plan.property.as_str();
     let mut out = Outcome::default();
     let mut stats = Stats::default();
